@@ -97,7 +97,6 @@ var (
 func Stat(name string) (FileInfo, error)      { return os.Stat(name) }
 func Lstat(name string) (FileInfo, error)     { return os.Lstat(name) }
 func ReadDir(name string) ([]DirEntry, error) { return os.ReadDir(name) }
-func ReadFile(name string) ([]byte, error)    { return os.ReadFile(name) }
 func Readlink(name string) (string, error)    { return os.Readlink(name) }
 func SameFile(fi1, fi2 FileInfo) bool         { return os.SameFile(fi1, fi2) }
 func DirFS(dir string) fs.FS                  { return os.DirFS(dir) }
@@ -142,8 +141,43 @@ func StartProcess(name string, argv []string, attr *ProcAttr) (*Process, error) 
 
 // ---- opening files -----------------------------------------------------------
 
-// Open opens the named file for reading (not recorded).
+// readFault consults the fault function (if one is installed) for a
+// READ-SIDE open: Open, read-only OpenFile, ReadFile. Such a call is NOT
+// recorded, gets no index of its own (Op.Index is the index of the last
+// mutating operation) and is no stop point; Op.Kind is "open-read". With no
+// fault function installed nothing changes.
+func readFault(name string) error {
+	fp := faultFn.Load()
+	if fp == nil {
+		return nil
+	}
+	p := absPath(name)
+	opMu.Lock()
+	defer opMu.Unlock()
+	st.mu.Lock()
+	idx := st.index
+	st.mu.Unlock()
+	f := (*fp)(Op{Index: idx, Kind: "open-read", Path: p, Phase: "before"})
+	if f == nil || f.Err == nil {
+		return nil
+	}
+	return &os.PathError{Op: "open", Path: name, Err: f.Err}
+}
+
+// ReadFile is not recorded; a FaultFunc sees it as Op{Kind: "open-read"}.
+func ReadFile(name string) ([]byte, error) {
+	if err := readFault(name); err != nil {
+		return nil, err
+	}
+	return os.ReadFile(name)
+}
+
+// Open opens the named file for reading (not recorded; a FaultFunc sees it
+// as Op{Kind: "open-read"}).
 func Open(name string) (*File, error) {
+	if err := readFault(name); err != nil {
+		return nil, err
+	}
 	f, err := os.Open(name)
 	if err != nil {
 		return nil, err
@@ -177,6 +211,9 @@ const writeFlags = os.O_WRONLY | os.O_RDWR | os.O_APPEND | os.O_CREATE | os.O_TR
 func OpenFile(name string, flag int, perm FileMode) (*File, error) {
 	p := absPath(name)
 	if flag&writeFlags == 0 {
+		if err := readFault(name); err != nil {
+			return nil, err
+		}
 		f, err := os.OpenFile(name, flag, perm)
 		if err != nil {
 			return nil, err
